@@ -39,6 +39,9 @@ pub enum Op {
     /// read (rax 0) or write (rax 1) on a NON-pipe descriptor with a buffer that is not mapped:
     /// whose business the buffer is, is the later hook's - the call must still reach it
     ForeignBadBuffer { rax: u64, fd: u64, n: u64 },
+    /// read on the read end / write on the write end of pipe `k` with a buffer that is not
+    /// mapped: whatever the call answers, no byte may leave or enter the pipe
+    PipeBadBuffer { write: bool, k: usize, n: u64 },
 }
 
 #[derive(Clone, Debug, PartialEq, Eq, Hash)]
@@ -153,6 +156,13 @@ impl Spec for C14 {
                 }
             }
         }
+        for k in 0..m.pipes.len() {
+            for write in [false, true] {
+                for n in [0u64, 3] {
+                    v.push(Op::PipeBadBuffer { write, k, n });
+                }
+            }
+        }
         for fd in &fds {
             for n in [0u64, 1, 2, 3, 5] {
                 v.push(Op::Write { fd: fd.clone(), n });
@@ -203,6 +213,24 @@ impl Spec for C14 {
                 }
                 m2.pipes.push((base, base + 1, VecDeque::new()));
                 m2.next_fd = base + 2;
+            }
+            Op::PipeBadBuffer { write, k, n } => {
+                let fdn = if *write { m.pipes[*k].1 } else { m.pipes[*k].0 };
+                let what = if *write { "write" } else { "read" };
+                let out = syscall(ax, *write as u64, fdn, 0x10, *n); // 0x10: no area there
+                let avail = m.pipes[*k].2.len() as u64;
+                match out {
+                    StepOut::Panic(p) => return Err(div(format!("{what}|panic@{}|unmapped-buffer", p.tag()), format!("{what}({fdn}, unmapped, {n}) panicked: {}", crate::emu::first_line(&p.msg)))),
+                    StepOut::Ok(_) => {
+                        // nothing to transfer: fine; otherwise bytes went to / came from nowhere
+                        let moved = if *write { *n } else { (*n).min(avail) };
+                        if moved != 0 {
+                            return Err(div(format!("{what}|accepted-unmapped-buffer"), format!("{what}({fdn}, unmapped buffer, {n}) succeeded with {avail} byte(s) queued")));
+                        }
+                    }
+                    StepOut::Err(_) => {}
+                }
+                // the model is unchanged: the bytes queued before are still what reads deliver
             }
             Op::ForeignBadBuffer { rax, fd, n } => {
                 let before = fp(ax);
@@ -329,6 +357,7 @@ impl Spec for C14 {
             Op::Pipe => "pipe".to_string(),
             Op::Write { fd, .. } => format!("write|{}", match fd { Fd::R(_) => "read-end", Fd::W(_) => "write-end", Fd::Raw(_) => "non-pipe" }),
             Op::Read { fd, .. } => format!("read|{}", match fd { Fd::R(_) => "read-end", Fd::W(_) => "write-end", Fd::Raw(_) => "non-pipe" }),
+            Op::PipeBadBuffer { write, .. } => format!("{}|pipe-end-bad-buffer", if *write { "write" } else { "read" }),
             Op::ForeignBadBuffer { rax, .. } => format!("{}|non-pipe-bad-buffer", if *rax == 0 { "read" } else { "write" }),
         };
         format!("{k}|{}pipes", m.pipes.len())
